@@ -1,6 +1,7 @@
 package server
 
 import (
+	"context"
 	"strings"
 
 	"github.com/oxia-db/oxia/proto"
@@ -49,8 +50,10 @@ func zzEntryOf(m *zzKV, key string) *proto.StorageEntry {
 }
 
 // zzCheckDerived: the derived internal keys are exactly what the live records declare:
-//   record k owned by session s  <=>  shadow key (s,k) exists
-//   record k declares (index, secondary key)  <=>  the index entry exists
+//
+//	record k owned by session s  <=>  shadow key (s,k) exists
+//	record k declares (index, secondary key)  <=>  the index entry exists
+//
 // and there are no other shadow or index keys.
 func zzCheckDerived(m *zzKV, tag string) {
 	shadows, idxs := 0, 0
@@ -195,5 +198,85 @@ func ZZRangeThreshold(n int) {
 	vAssert("shadow-of-removed-ephemeral-removed", !zzHas(m, ShadowKey(1, "rz")))
 	vAssert("index-entry-of-removed-record-removed", !zzHas(m, secondaryIndexKey("rz", &proto.SecondaryIndex{IndexName: "i1", SecondaryKey: "x"})))
 	vAssert("record-outside-range-untouched", zzHas(m, "s") && zzHas(m, ShadowKey(1, "s")))
+	vReach("end")
+}
+
+// ZZSessionClose (C14): on a serving leader (RF 1) a session is created through the real session
+// manager, writes an ephemeral record, another client writes a plain record and (variant 1) takes over
+// the ephemeral record; then the session is closed explicitly — or expires: its timer may fire at any
+// schedule point. Whatever the schedule: when the session is gone, no record owned by it is left, its
+// session key and shadow keys are gone, derived keys are consistent, and records it does not own are
+// untouched.
+func ZZSessionClose(variant int) {
+	w, m := zzLeaderState(1, 0)
+	lc := zzLeaderOver(w, m, 3, &zzRpc{})
+	_, err := lc.BecomeLeader(context.Background(), &proto.BecomeLeaderRequest{Term: 3, ReplicationFactor: 1})
+	vAssert("became-leader", err == nil)
+	cs, err := lc.CreateSession(&proto.CreateSessionRequest{Shard: 1, SessionTimeoutMs: 5000, ClientIdentity: "c"})
+	vAssert("session-created", err == nil)
+	if err != nil {
+		return
+	}
+	sid := cs.SessionId
+	sess, _ := lc.sessionManager.(*sessionManager).sessions.Get(SessionId(sid))
+	r1, err := lc.WriteBlock(context.Background(), &proto.WriteRequest{Puts: []*proto.PutRequest{
+		{Key: "e", Value: []byte("v"), SessionId: &sid},
+		{Key: "b/c", Value: []byte("v"), SessionId: &sid}}})
+	// the expiry path is itself a concurrent writer: a write that fails because of the known write-path
+	// race (KF-C08) ends the scenario
+	if vKnown("KF-C08-concurrent-writers-reach-wal-out-of-order", err != nil) {
+		vAssert("ephemeral-write-ok", err == nil)
+	}
+	alive := r1.Puts[0].Status == proto.Status_OK
+	r2, err := lc.WriteBlock(context.Background(), &proto.WriteRequest{Puts: []*proto.PutRequest{{Key: "plain", Value: []byte("p")}}})
+	if vKnown("KF-C08-concurrent-writers-reach-wal-out-of-order", err != nil) {
+		vAssert("plain-write-ok", err == nil)
+	}
+	vAssert("plain-write-status", r2.Puts[0].Status == proto.Status_OK)
+	if variant == 1 {
+		// another client takes the record over with a plain put
+		r3, err := lc.WriteBlock(context.Background(), &proto.WriteRequest{Puts: []*proto.PutRequest{{Key: "e", Value: []byte("mine")}}})
+		if vKnown("KF-C08-concurrent-writers-reach-wal-out-of-order", err != nil) {
+			vAssert("takeover-ok", err == nil)
+		}
+		vAssert("takeover-status", r3.Puts[0].Status == proto.Status_OK)
+	}
+	expiredEarly := sess.ctx.Err() != nil // the expiry timer fired while this client was still writing
+	_, cerr := lc.CloseSession(&proto.CloseSessionRequest{Shard: 1, SessionId: sid})
+	if cerr != nil {
+		// the session expired on its own: wait until its goroutine has finished the clean-up
+		vReach("already-expired")
+		sess.latch.Wait()
+	} else {
+		vReach("closed")
+	}
+	_ = alive
+	// the session is gone now, one way or the other
+	mm := m
+	if vKnown("KF-C08-concurrent-writers-reach-wal-out-of-order", w.rejected > 0) {
+		// a clean-up write was refused by the WAL because of the write-path race: the session's data stays
+		vAssert("session-key-removed", !zzHas(mm, SessionKey(SessionId(sid))))
+		vReach("end")
+		return
+	}
+	vAssert("session-key-removed", !zzHas(mm, SessionKey(SessionId(sid))))
+	vAssert("shadow-keys-removed", !zzHas(mm, ShadowKey(SessionId(sid), "e")) && !zzHas(mm, ShadowKey(SessionId(sid), "b/c")))
+	vAssert("plain-record-untouched", zzHas(mm, "plain"))
+	se := zzEntryOf(mm, "e")
+	if vKnown("KF-C14-expiry-lists-then-deletes", expiredEarly || cerr != nil) {
+		vAssert("owned-record-removed", !zzHas(mm, "b/c"))
+		if variant == 1 {
+			vAssert("taken-over-record-survives", se != nil && se.SessionId == nil)
+		} else {
+			vAssert("owned-record-removed-2", se == nil)
+		}
+	} else {
+		vAssert("owned-record-removed", !zzHas(mm, "b/c"))
+		if variant == 1 {
+			vAssert("taken-over-record-survives", se != nil && se.SessionId == nil)
+		} else {
+			vAssert("owned-record-removed-2", se == nil)
+		}
+	}
 	vReach("end")
 }
